@@ -222,6 +222,31 @@ let c15_line q id sel root blocks ctl obs =
   let verdict = if model_obs = "compile:unsupported" then "skip" else c15_oracle (parse_ctl ctl) ctl obs in
   print_string id; print_char '\t'; print_string model_obs; print_char '\t'; print_endline verdict
 
+(* Record: id, "c15h", selector, root, blocks, ctl!ctl!..., observation  H<trace>#..;F<trace>#..
+   consecutive walks sharing one Config: each must be the walk its controls alone determine *)
+let c15h_model q sel root blocks hist =
+  match compile (dm_of_string sel) with
+  | CErr -> "compile:err"
+  | CUnsupported -> "compile:unsupported"
+  | COk s ->
+    let g = parse_blocks blocks and r = dm_of_string root in
+    let ts = List.map (fun ctl ->
+        let (mc, budget) = model_ctl (parse_ctl ctl) in
+        trace_text true (cwalk_adv q mc g fuel budget r s)) (String.split_on_char '!' hist) in
+    let j = String.concat "#" ts in
+    "H" ^ j ^ ";F" ^ j
+
+let c15h_line q id sel root blocks hist obs =
+  let model_obs = c15h_model q sel root blocks hist in
+  let verdict =
+    if model_obs = "compile:unsupported" then "skip" else
+    match String.index_opt obs ';' with
+    | Some i when String.length obs > i + 1 && obs.[0] = 'H' && obs.[i + 1] = 'F' ->
+      if String.sub obs 1 (i - 1) = String.sub obs (i + 2) (String.length obs - i - 2) then "ok"
+      else "fail:config_reuse_changes_walk"
+    | _ -> "fail:malformed_obs" in
+  print_string id; print_char '\t'; print_string model_obs; print_char '\t'; print_endline verdict
+
 (* ======================================================================== C14 *)
 let gerr_name = function
   | GNotExists -> "notexists" | GBadIndex -> "badindex" | GTerminal -> "terminal" | GLoad -> "load" | GFuel -> "fuel"
@@ -498,6 +523,7 @@ let process line =
   try
     match split_tab line with
     | id :: "c15" :: sel :: root :: blocks :: ctl :: obs :: _ -> c15_line !cur_q id sel root blocks ctl obs
+    | id :: "c15h" :: sel :: root :: blocks :: hist :: obs :: _ -> c15h_line !cur_q id sel root blocks hist obs
     | id :: "c07" :: sel :: root :: blocks :: obs :: _ -> c07_line !cur_q id sel root blocks obs
     | id :: "c10s" :: sel :: root :: blocks :: obs :: _ -> c10s_line !cur_q id sel root blocks obs
     | id :: "c14v" :: sel :: root :: blocks :: obs :: _ -> c14v_line !cur_q id sel root blocks obs
